@@ -140,15 +140,67 @@ func (E *Engine) assumeAllocated(st *State, v *Term) {
 }
 
 // pureResult: the call has no effect on the heap; its result is a function of its arguments.
+// pureArg: what a pure library function may observe of an argument. A pointer to a small struct is
+// replaced by the struct's value (its address is irrelevant), slices and maps are accompanied by
+// their current contents, so that the result changes when the memory read through them changes.
+func (E *Engine) pureArg(fr *Frame, st *State, t *Term, at types.Type) []*Term {
+	if at == nil {
+		return []*Term{t}
+	}
+	at = types.Unalias(E.subst(at, fr.tenv))
+	switch tt := at.Underlying().(type) {
+	case *types.Pointer:
+		if si := E.structInfoOf(tt.Elem(), fr.tenv); si != nil && si.sort != SUnit && len(si.fields) <= 12 && t.sort == SRef {
+			nested := false
+			for _, ft := range si.ftypes {
+				if isStruct(ft) {
+					nested = true
+				}
+			}
+			if !nested {
+				return []*Term{E.tb.Eq(t, E.null()), E.loadObj(st, t, tt.Elem(), fr.tenv)}
+			}
+		}
+	case *types.Slice:
+		if t.sort == SSlc {
+			k, ks := E.arrKey(tt.Elem(), fr.tenv)
+			return []*Term{t, E.tb.Select(E.get(st, k, ks), E.slcArr(t))}
+		}
+	case *types.Map:
+		if t.sort == SRef {
+			out := []*Term{t, E.mapDom(st, t, tt, fr.tenv)}
+			if E.sortOf(tt.Elem(), fr.tenv) != SUnit {
+				out = append(out, E.mapVal(st, t, tt, fr.tenv))
+			}
+			return out
+		}
+	}
+	return []*Term{t}
+}
+
 func (E *Engine) pureResult(fr *Frame, st *State, name string, res *types.Tuple, args []Val, instr ssa.Instruction) Val {
+	var argTypes []types.Type
+	if ci, ok := instr.(ssa.CallInstruction); ok {
+		cc := ci.Common()
+		if cc.IsInvoke() {
+			argTypes = append(argTypes, cc.Value.Type())
+		}
+		for _, a := range cc.Args {
+			argTypes = append(argTypes, a.Type())
+		}
+	}
 	if res.Len() == 0 {
 		return nil
 	}
 	var targs []*Term
 	allTerms := true
-	for _, a := range args {
+	for i, a := range args {
 		if t, ok := a.(*Term); ok {
-			targs = append(targs, t)
+			var at types.Type
+			if argTypes != nil && i < len(argTypes) {
+				at = argTypes[i]
+			}
+			targs = append(targs, E.pureArg(fr, st, t, at)...)
 		} else {
 			allTerms = false
 		}
@@ -189,6 +241,7 @@ var noEffectPkgs = []string{
 	"istio.io/istio/pkg/env", "cmp", "slices", "maps", "hash", "github.com/cespare/xxhash/v2", "istio.io/istio/pkg/util/hash",
 	"google.golang.org/protobuf/types/known/wrapperspb", "google.golang.org/protobuf/types/known/durationpb",
 	"k8s.io/apimachinery/pkg/types", "k8s.io/apimachinery/pkg/labels", "istio.io/istio/pilot/pkg/util/protoconv",
+	"k8s.io/apimachinery/pkg/apis/meta/v1",
 }
 
 func (E *Engine) isNoEffect(name string, pkg *types.Package) bool {
@@ -411,7 +464,11 @@ func (E *Engine) protoGetter(fr *Frame, st *State, fn *ssa.Function, args []Val)
 		return nil, false
 	}
 	si := E.structInfoOf(pt.Elem(), nil)
-	if si == nil || si.st.NumFields() == 0 || si.st.Field(0).Name() != "state" {
+	if si == nil || si.st.NumFields() == 0 {
+		return nil, false
+	}
+	// generated protobuf messages (first field "state") and the Kubernetes object metadata accessors
+	if si.st.Field(0).Name() != "state" && !strings.HasPrefix(types.TypeString(pt.Elem(), nil), "k8s.io/apimachinery/pkg/apis/meta/v1.") {
 		return nil, false
 	}
 	fname := fn.Name()[3:]
@@ -424,7 +481,7 @@ func (E *Engine) protoGetter(fr *Frame, st *State, fn *ssa.Function, args []Val)
 			}
 			k, ks := E.fieldKey(si, i)
 			v := E.tb.Select(E.get(st, k, ks), recv)
-			E.note("generated protobuf getters: nil receiver yields the zero value, otherwise the field (mechanical rule)")
+			E.note("generated protobuf getters and Kubernetes ObjectMeta accessors (GetX): nil receiver yields the zero value, otherwise the field X (mechanical rule)")
 			return E.tb.Ite(E.tb.Eq(recv, E.null()), E.zero(f.Type(), nil), v), true
 		}
 	}
